@@ -18,6 +18,7 @@ package syncer
 
 import (
 	"context"
+	"encoding/binary"
 	"encoding/json"
 	"errors"
 	"fmt"
@@ -37,6 +38,7 @@ import (
 	"github.com/mgtv-tech/redis-GunYu/pkg/log"
 	usync "github.com/mgtv-tech/redis-GunYu/pkg/sync"
 	"github.com/mgtv-tech/redis-GunYu/verifshim/mc"
+	"github.com/mgtv-tech/redis-GunYu/verifshim/ref"
 	"github.com/mgtv-tech/redis-GunYu/verifshim/vgrpc"
 	"google.golang.org/protobuf/proto"
 )
@@ -79,6 +81,24 @@ func c16HistOf(id string) int {
 // every offset; a shift by any distance below 251*256 changes the byte.
 func c16Byte(hist, kind int, off int64) byte {
 	return byte(off%251) + byte(off/251)*7 + byte(hist*83) + byte(kind*41)
+}
+
+// c16SnapBody: the body of a snapshot of a history: as in an RDB file the last 8 bytes are
+// the CRC-64 (little endian) of everything before them - the trailer a verifying snapshot
+// reader (Channel.VerifyCrc) checks.
+var c16SnapBodies = map[[3]int64][]byte{}
+
+func c16SnapBody(hist, kind int, size int64) []byte {
+	key := [3]int64{int64(hist), int64(kind), size}
+	if b, ok := c16SnapBodies[key]; ok {
+		return b
+	}
+	b := c16Bytes(hist, kind, 0, size)
+	if size > 8 {
+		binary.LittleEndian.PutUint64(b[size-8:], ref.RDBCRC64(0, b[:size-8]))
+	}
+	c16SnapBodies[key] = b
+	return b
 }
 
 func c16Bytes(hist, kind int, from, n int64) []byte {
@@ -135,6 +155,19 @@ type c16Scenario struct {
 	// leader has a run id and no data meanwhile).
 	Switch string `json:"switch,omitempty"`
 	Window int    `json:"window_s,omitempty"`
+	// Crc: Channel.VerifyCrc (the disk cache verifies the checksum of every sealed segment and
+	// snapshot a reader opens); only set on scenarios with a disk cache.
+	Crc bool `json:"verify_crc,omitempty"`
+	// SwitchAt "handshake": the leader's re-synchronisation happens while the reply to the
+	// follower's handshake is in flight (the follower then asks with a run id the leader has
+	// just left: ERROR reply) instead of when the follower tails the leader.
+	SwitchAt string `json:"switch_at,omitempty"`
+	// NotReady: for the first Window seconds the leader is in a state in which it cannot serve:
+	// "no-ids" (its input knows no run id yet: FAILURE), "role" (its syncer is not running as
+	// leader: FAILURE), "stopped" (ReplicaLeader stopped: plain gRPC error), "stale-channel-id"
+	// (input already reports a new first run id, the cache is still keyed by the old one:
+	// CLEAR "wait a moment").
+	NotReady string `json:"not_ready,omitempty"`
 }
 
 type c16Fault struct {
@@ -185,6 +218,13 @@ func (s c16Scenario) expect() string {
 		return "none"
 	}
 	return "sync"
+}
+
+// singleFaultInQuick: the option / boundary families added on top of the cache-pair
+// catalogue get every single interruption point in the quick tier, pairs of them only in
+// the thorough tier.
+func (s c16Scenario) singleFaultInQuick() bool {
+	return s.Crc || s.NotReady != "" || s.SwitchAt != "" || s.Leader.Left < c16Base
 }
 
 func (s c16Scenario) fclass() string {
@@ -261,6 +301,10 @@ func c16Scenarios(tier string) []c16Scenario {
 							extra = 0
 						}
 						out = append(out, c16Scenario{LKind: lk, FKind: fk, Leader: L, Follower: F, Extra: extra})
+						// checksum verification on: where a disk cache holds sealed (rotated) segments
+						if ck.seg == 3000 && (b.l == "disk" || b.f == "disk") && (n == 5000 || tier == "thorough") {
+							out = append(out, c16Scenario{LKind: lk, FKind: fk, Leader: L, Follower: F, Extra: extra, Crc: true})
+						}
 					}
 					mk("empty", 0, 0, 0, -1)
 					if lk == "empty" {
@@ -289,6 +333,45 @@ func c16Scenarios(tier string) []c16Scenario {
 					mk("other-id-snapshot", 2, 500, c16Base+n, 100)    // other history with a snapshot at the leader's newest offset
 					mk("other-id-collected", 2, 0, c16Base-300, 200)   // other history, ends before the leader's oldest byte
 				}
+			}
+		}
+	}
+	// histories that start at offset 0 / 1 (a young source: snapshot at offset 0, log from 0;
+	// the disk cache treats a newest offset of 0 specially, the wire uses -1 for "nothing")
+	for _, base := range []int64{0, 1} {
+		for _, b := range bes {
+			for _, lk := range []string{"snap+log", "log", "empty"} {
+				at := fmt.Sprintf("-from-offset-%d", base)
+				side := func(be string, hist int, snap, left, ln int64, reopen bool) c16Side {
+					return c16Side{Backend: be, Hist: hist, Snap: snap, Left: left, Len: ln, Chunk: 1 << 20, Seg: 1 << 20, Reopen: reopen}
+				}
+				if lk == "empty" {
+					L := side(b.l, 1, 0, base, -1, false)
+					out = append(out,
+						c16Scenario{LKind: lk, FKind: "ahead" + at, Leader: L, Follower: side(b.f, 1, 0, base, 100, b.reopen)},
+						c16Scenario{LKind: lk, FKind: "ahead-snap-only" + at, Leader: L, Follower: side(b.f, 1, 700, base, -1, b.reopen)},
+						c16Scenario{LKind: lk, FKind: "other-id" + at, Leader: L, Follower: side(b.f, 2, 0, base, 100, b.reopen)})
+					continue
+				}
+				snap := int64(0)
+				if lk == "snap+log" {
+					snap = 700
+				}
+				L := side(b.l, 1, snap, base, 100, false)
+				add := func(fk string, f c16Side) {
+					out = append(out, c16Scenario{LKind: lk, FKind: fk + at, Leader: L, Follower: f, Extra: 5000})
+				}
+				add("empty", c16Side{Backend: b.f, Hist: 0, Len: -1, Chunk: 1 << 20, Seg: 1 << 20, Reopen: b.reopen})
+				add("prefix", side(b.f, 1, snap, base, 50, b.reopen))
+				add("equal", side(b.f, 1, snap, base, 100, b.reopen))
+				add("ahead", side(b.f, 1, snap, base, 200, b.reopen))
+				if lk == "snap+log" {
+					add("snapshot-only", side(b.f, 1, snap, base, -1, b.reopen))
+					add("prefix-without-snapshot", side(b.f, 1, 0, base, 50, b.reopen))
+				}
+				add("other-id-shorter", side(b.f, 2, 0, base, 50, b.reopen))
+				add("other-id-longer", side(b.f, 2, 0, base, 200, b.reopen))
+				add("other-id-snapshot", side(b.f, 2, 500, base, -1, b.reopen))
 			}
 		}
 	}
@@ -331,6 +414,36 @@ func c16Scenarios(tier string) []c16Scenario {
 				out = append(out,
 					c16Scenario{LKind: lk, FKind: "collected-behind-" + dn, Leader: L, Follower: side(b.f, 1, 0, fr-8, 8, b.reopen), Extra: 5000},
 					c16Scenario{LKind: lk, FKind: "other-id-behind-" + dn, Leader: L, Follower: side(b.f, 2, 0, fr-8, 8, b.reopen), Extra: 5000})
+			}
+		}
+	}
+	// a leader that is not ready for the first 5 s, and a leader that re-synchronises while its
+	// handshake reply is in flight (replies FAILURE, ERROR, CLEAR "wait a moment", gRPC error)
+	for _, b := range bes {
+		for _, lk := range []string{"snap+log", "log"} {
+			side := func(be string, hist int, snap, left, ln int64, reopen bool) c16Side {
+				return c16Side{Backend: be, Hist: hist, Snap: snap, Left: left, Len: ln, Chunk: 1 << 20, Seg: 1 << 20, Reopen: reopen}
+			}
+			snap := int64(0)
+			if lk == "snap+log" {
+				snap = 700
+			}
+			L := side(b.l, 1, snap, c16Base, 100, false)
+			fs := map[string]c16Side{
+				"empty":  {Backend: b.f, Hist: 0, Len: -1, Chunk: 1 << 20, Seg: 1 << 20, Reopen: b.reopen},
+				"prefix": side(b.f, 1, snap, c16Base, 50, b.reopen),
+				"equal":  side(b.f, 1, snap, c16Base, 100, b.reopen),
+				"ahead":  side(b.f, 1, snap, c16Base, 200, b.reopen),
+			}
+			for _, nr := range []string{"no-ids", "role", "stopped", "stale-channel-id"} {
+				for _, fk := range []string{"empty", "prefix", "ahead"} {
+					out = append(out, c16Scenario{LKind: lk, FKind: fk, Leader: L, Follower: fs[fk], Extra: 600, NotReady: nr, Window: 5})
+				}
+			}
+			for _, w := range []int{0, 5} {
+				for _, fk := range []string{"empty", "equal"} {
+					out = append(out, c16Scenario{LKind: lk, FKind: fk, Leader: L, Follower: fs[fk], Extra: 600, Switch: "resync-new-id", SwitchAt: "handshake", Window: w})
+				}
 			}
 		}
 	}
@@ -398,7 +511,11 @@ func c16Feed(g *gate, hist, kind int, from, n, chunk int64) int {
 		if c > n-done {
 			c = n - done
 		}
-		g.Release(c16Bytes(hist, kind, from+done, c))
+		if kind >= 1 { // snapshots are always fed whole (from == 0, n == size)
+			g.Release(c16SnapBody(hist, kind, n)[done : done+c])
+		} else {
+			g.Release(c16Bytes(hist, kind, from+done, c))
+		}
 		done += c
 		k++
 		synctest.Wait()
@@ -679,6 +796,9 @@ type c16Run struct {
 	faulted  bool
 	// the append that follows the first fault is a separate event (after quiescence)
 	wantAppend bool
+	leader     *ReplicaLeader
+	sy         *syncer
+	notReady   bool
 	// leader re-synchronisation: 0 = not yet, 1 = run id set, cache empty, 2 = new data present
 	switchPhase int
 	switchAt    time.Duration
@@ -865,14 +985,14 @@ func (r *c16Run) observe() {
 					r.fail("a stored snapshot is longer than its declared size", "snapshot-overrun", map[string]interface{}{"snapshot": s.Name, "have": len(s.Data)})
 					return
 				}
-				if s.Data[i] != c16Byte(hist, known.kind, int64(i)) {
+				if s.Data[i] != c16SnapBody(hist, known.kind, known.size)[i] {
 					whose := c16Whose(s.Data[i], int64(i), true)
 					kind := "wrong-byte"
 					if strings.HasPrefix(whose, "the ") {
 						kind = "foreign-byte"
 					}
 					r.fail("the follower holds, "+under+", a snapshot byte that is not that snapshot's byte at that index",
-						kind, map[string]interface{}{"run_id": id[:4], "snapshot": s.Name, "index": i, "got": s.Data[i], "want": c16Byte(hist, known.kind, int64(i)), "it_is": whose})
+						kind, map[string]interface{}{"run_id": id[:4], "snapshot": s.Name, "index": i, "got": s.Data[i], "want": c16SnapBody(hist, known.kind, known.size)[i], "it_is": whose})
 					return
 				}
 			}
@@ -945,6 +1065,44 @@ func (r *c16Run) append() bool {
 	r.L.right += piece
 	r.appended += piece
 	return true
+}
+
+// setReady puts the leader into / takes it out of the scenario's not-ready state.
+func (r *c16Run) setReady(ready bool) {
+	r.events++
+	switch r.scn.NotReady {
+	case "no-ids":
+		if ready {
+			r.input.setRunIds([]string{c16IDs[1], strings.Repeat("0", 40)})
+		} else {
+			r.input.setRunIds(nil)
+		}
+	case "role":
+		r.sy.guard.Lock()
+		if ready {
+			r.sy.state = SyncerStateRun
+		} else {
+			r.sy.state = SyncerStatePause
+		}
+		r.sy.guard.Unlock()
+	case "stopped":
+		if ready {
+			r.leader.Start()
+		} else {
+			r.leader.Stop()
+		}
+	case "stale-channel-id":
+		if ready {
+			r.input.setRunIds([]string{c16IDs[1], strings.Repeat("0", 40)})
+		} else {
+			r.input.setRunIds([]string{c16IDs[3], c16IDs[1]})
+		}
+	}
+	r.notReady = !ready
+	if ready {
+		r.logf("leader becomes ready (was: %s)", r.scn.NotReady)
+		r.deadline = r.virt + c16Horizon
+	}
 }
 
 // switchBegin: the leader's input lost its source connection and starts a full sync, as
@@ -1059,6 +1217,10 @@ func (r *c16Run) drive() string {
 				continue
 			}
 		}
+		if r.notReady && r.virt >= time.Duration(r.scn.Window)*time.Second {
+			r.setReady(true)
+			continue
+		}
 		if r.switchPhase == 1 && r.virt >= r.switchAt+time.Duration(r.scn.Window)*time.Second {
 			if !r.switchData() {
 				return "machinery"
@@ -1066,6 +1228,10 @@ func (r *c16Run) drive() string {
 			continue
 		}
 		if p := r.net.Next(); p != nil {
+			if r.scn.Switch != "" && r.scn.SwitchAt == "handshake" && r.switchPhase == 0 && r.wire == 0 {
+				r.switchBegin() // the reply to the handshake stays in flight meanwhile
+				continue
+			}
 			r.wire++
 			r.events++
 			desc, m := c16Describe(p)
@@ -1188,7 +1354,7 @@ func (r *c16Run) readBack(mustReach int64) {
 			return
 		}
 		for i := range got {
-			if got[i] != c16Byte(hist, known.kind, int64(i)) {
+			if got[i] != c16SnapBody(hist, known.kind, known.size)[i] {
 				d["index"] = i
 				d["it_is"] = c16Whose(got[i], int64(i), true)
 				r.fail("the follower's snapshot differs from the leader's", "wrong-byte", d)
@@ -1277,6 +1443,7 @@ func c16Exec(t *testing.T, scn c16Scenario) (res mc.Result, wire int) {
 	if config.GetSyncerConfig().Channel == nil {
 		config.GetSyncerConfig().Channel = &config.ChannelConfig{}
 	}
+	config.GetSyncerConfig().Channel.VerifyCrc = scn.Crc
 	if os.Getenv("VERIF_C16_TRACE") != "" {
 		t0 := time.Now()
 		defer func() {
@@ -1317,11 +1484,17 @@ func c16Exec(t *testing.T, scn c16Scenario) (res mc.Result, wire int) {
 		}
 
 		// the leader: real ReplicaLeader behind the real syncer.ServiceReplica
-		r.input = &c16Input{ids: []string{c16IDs[1]}}
+		// (a leader that continued its source's stream reports two ids: the current one and the previous / all-zero one)
+		r.input = &c16Input{ids: []string{c16IDs[1], strings.Repeat("0", 40)}}
 		leader := NewReplicaLeader(r.input, r.lch.ch)
 		leader.Start()
 		sy := &syncer{logger: log.WithLogger("[c16] "), wait: usync.NewWaitCloser(nil), leader: leader, state: SyncerStateRun, role: SyncerRoleLeader}
 		r.net.Serve(c16LeaderAddr, &c16Server{sy: sy})
+
+		r.leader, r.sy = leader, sy
+		if scn.NotReady != "" {
+			r.setReady(false)
+		}
 
 		// the follower: real Run()
 		r.startFollower()
@@ -1344,7 +1517,14 @@ func c16Exec(t *testing.T, scn c16Scenario) (res mc.Result, wire int) {
 				r.fail(fmt.Sprintf("the follower has neither %s nor returned within %v of virtual time", what, c16Horizon),
 					"no-resync", map[string]interface{}{"follower_right": r.followerRight(), "leader_right": r.L.right})
 			case expect == "takeover":
-				if !errors.Is(r.runErr, ErrLeaderTakeover) {
+				if scn.NotReady != "" && r.ended && errors.Is(r.runErr, ErrBreak) {
+					// the leader answered FAILURE: the follower asks for a restart of the process, which is
+					// an accepted end; what it holds must still be there to be offered later
+					if after := r.fch.held(fid); after.digest() != before.digest() {
+						r.fail("a follower that holds more than the leader lost data although no transfer took place", "takeover-data-changed",
+							map[string]interface{}{"before": before.shape(), "after": after.shape()})
+					}
+				} else if !errors.Is(r.runErr, ErrLeaderTakeover) {
 					r.fail("a follower that holds more of the leader's history than the leader was not offered leadership", "no-takeover", nil)
 				} else {
 					after := r.fch.held(fid)
@@ -1408,7 +1588,7 @@ func c16Exec(t *testing.T, scn c16Scenario) (res mc.Result, wire int) {
 			}
 		}
 		fl, fr := r.fch.ch.GetOffsetRange(r.L.id)
-		obs := mc.Hash(scn.LKind, scn.FKind, scn.Leader.Backend, scn.fclass(), scn.Switch, outcome, fmt.Sprint(fl, fr, r.wire, r.data, scn.Faults, scn.AppendAtFault, scn.Window), strings.Join(r.trace, "\n"))
+		obs := mc.Hash(scn.LKind, scn.FKind, scn.Leader.Backend, scn.fclass(), scn.Switch, outcome, fmt.Sprint(fl, fr, r.wire, r.data, scn.Faults, scn.AppendAtFault, scn.Window, scn.Crc, scn.NotReady, scn.SwitchAt), strings.Join(r.trace, "\n"))
 		res = mc.OK(obs, r.wire > 1, r.events)
 		res.Detail = map[string]interface{}{"outcome": outcome, "messages": r.wire, "data_bytes": r.data, "follower_range": []int64{fl, fr}, "virtual_time": r.virt.String(), "trace": r.trace}
 	})
@@ -1485,7 +1665,7 @@ func runC16(t *testing.T, rep *mc.Reporter) {
 		for k := 1; k <= m; k++ {
 			for _, mode := range modes {
 				for _, app := range []bool{false, true} {
-					if app && (scn.Extra == 0) {
+					if app && (scn.Extra == 0 || (tier != "thorough" && scn.singleFaultInQuick())) {
 						continue
 					}
 					if budget.Expired() {
@@ -1504,7 +1684,7 @@ func runC16(t *testing.T, rep *mc.Reporter) {
 					}
 					// a second lost message anywhere after the first one
 					// (quick: transport breaks only, no append at the fault)
-					if app || (tier != "thorough" && mode != "break") {
+					if app || (tier != "thorough" && (mode != "break" || scn.singleFaultInQuick())) {
 						continue
 					}
 					modes2 := []string{"break"}
